@@ -31,6 +31,29 @@
 #ifndef VARIANT
 #define VARIANT 0
 #endif
+#ifndef MAINALG
+#define MAINALG 0
+#endif
+#ifndef MAINCHECK
+#define MAINCHECK 0
+#endif
+#if MAINCHECK && MAINALG == 0
+#define MAINFLAG "-c"
+#elif MAINCHECK && MAINALG == 1
+#define MAINFLAG "-ca"
+#elif MAINCHECK && MAINALG == 2
+#define MAINFLAG "-xc"
+#elif MAINCHECK
+#define MAINFLAG "-cy"
+#elif MAINALG == 0
+#define MAINFLAG "-h"
+#elif MAINALG == 1
+#define MAINFLAG "-a"
+#elif MAINALG == 2
+#define MAINFLAG "-x"
+#else
+#define MAINFLAG "-y"
+#endif
 
 /* ---- stdio model ---- */
 typedef struct { const unsigned char *data; size_t len, pos; int err; int is_sums; } mfile_t;
@@ -101,7 +124,17 @@ int printf(const char *fmt, ...)
 int fprintf(FILE *f, const char *fmt, ...) { (void)f; (void)fmt; return 0; }
 void perror(const char *s) { (void)s; }
 char *optarg; int optind = 1;
-int getopt(int argc, char *const argv[], const char *opts) { (void)argc; (void)argv; (void)opts; return -1; }
+/* getopt contract, short options without arguments, one or several per argument */
+static int go_pos = 1;
+int getopt(int argc, char *const argv[], const char *opts)
+{
+    char c; const char *o;
+    if (optind >= argc || argv[optind][0] != '-' || argv[optind][1] == 0) return -1;
+    c = argv[optind][go_pos];
+    for (o = opts; *o && *o != c; ++o) ;
+    if (argv[optind][go_pos + 1] == 0) { ++optind; go_pos = 1; } else ++go_pos;
+    return *o ? c : '?';
+}
 
 /* ---- tracking hash stubs ---- */
 #include <ascon/hash.h>
@@ -175,6 +208,29 @@ void harness(void)
         CHECK(which_alg == ALG, "the selected algorithm is used");
         ok = (fed_len == FLEN); for (i = 0; i < FLEN; ++i) ok &= (fed[i] == fcontent[i]);
         CHECK(ok, "the listed file's bytes are what is hashed");
+    }
+#elif KIND == 6
+    {   /* main(): asconsum <FLAG> f   and   asconsum -c<FLAG> sums : the flag selects the algorithm, the exit status reflects the outcome */
+        static char a0[] = "asconsum", aflag[] = MAINFLAG, afile[] = "f";
+        char *argv[4]; int expect_alg = MAINALG;
+        argv[0] = a0; argv[1] = aflag; argv[2] = MAINCHECK ? (char *)SUMS_NAME : afile; argv[3] = 0;
+#if MAINCHECK
+        {
+            static const char pat0[] = "00112233445566778899aabbccddeeff0123456789abcdeffedcba9876543210";
+            int equal = 1;
+            for (i = 0; i < 64; ++i) sums[i] = pat0[i];
+            sums[64] = ' '; sums[65] = ' '; sums[66] = 'f'; sums[67] = '\n'; sums_nl[67] = 1; sums_len = 68;
+            for (i = 0; i < 32; ++i) equal &= ((unsigned char)(hexval(sums[2 * i]) * 16 + hexval(sums[2 * i + 1])) == digest[i]);
+            open_sums_first = 1;
+            rc = asconsum_main(3, argv);
+            CHECK((rc == 0) == (equal != 0), "check mode exits 0 exactly when every listed digest matches");
+        }
+#else
+        rc = asconsum_main(3, argv);
+        if (RDERR) CHECK(rc != 0, "a file that cannot be read gives a non-zero exit status");
+        else CHECK(rc == 0 && outlen == 68, "a readable file gives exit status 0 and one digest line");
+#endif
+        CHECK(which_alg == expect_alg && inits == 1, "the option selects the algorithm: -h ASCON-HASH (default), -a ASCON-HASHA, -x ASCON-XOF, -y ASCON-XOFA");
     }
 #elif KIND == 4
     {
